@@ -443,6 +443,12 @@ func purityConcurrent(aux *auxExpect, p, prev *vd.Policy, k, g int) string {
 /* ---------------------------------------------------------------- parent */
 
 type purityCtx struct {
+	// the previous case of the stream: its value is compiled once more after the current one (history A…A B…B A)
+	prevVal   *seccomp.Policy
+	prevP     *vd.Policy
+	prevReply string
+	prevView  policyView
+
 	cmd    *exec.Cmd
 	stdin  io.WriteCloser
 	stdout *bufio.Reader
@@ -626,6 +632,21 @@ func (r *runner) onePurity(pc *purityCtx, id string, p *vd.Policy, k, g int, pro
 	dc := deepCopy(&snapshot)
 	repCopy := compileValue(&dc, p, useHook)
 	restore()
+	// interleaving with another policy: the previous case's value, compiled again after this one
+	if pc.prevVal != nil {
+		restorePrev := setEndian(pc.prevP.Endian)
+		again := compileValue(pc.prevVal, pc.prevP, false)
+		restorePrev()
+		if again != pc.prevReply {
+			return fail(fmt.Sprintf("interleaved-compile: a policy value compiled again after another policy was compiled gives a different result:\n%s\n%s\nthe policy compiled in between is the one below; the value compiled again: %s",
+				clip(pc.prevReply, 1500), clip(again, 1500), pc.prevP.Request()), again)
+		}
+		if d := viewDiff(pc.prevView, viewOf(pc.prevVal)); d != "" {
+			return fail("policy-modified: compiling another policy and then this value again changed it: "+d+"\nvalue: "+pc.prevP.Request(), again)
+		}
+		r.tag("interleaved:ok")
+	}
+	pc.prevVal, pc.prevP, pc.prevReply, pc.prevView = &gp, p, firstReply, before
 	if repCopy != firstReply {
 		return fail(fmt.Sprintf("copy-compile: an equal policy (deep copy taken before the first call) compiles differently:\n%s\n%s", clip(firstReply, 1500), clip(repCopy, 1500)), repCopy)
 	}
@@ -695,7 +716,7 @@ func (r *runner) onePurity(pc *purityCtx, id string, p *vd.Policy, k, g int, pro
 
 func purityStream(r *runner, rng *rand.Rand) error {
 	r.sum.Rule = "one case = one generated policy (valid mixes of names and conditions over 5 architectures and both byte orders, long programs, some defective ones) with a history: " +
-		"k ∈ {2,3,5} sequential Assemble calls on one value + a deep copy; then, in a child process, g ∈ {2,4,8,16} goroutines released together, each compiling its own copy k times " +
+		"k ∈ {2,3,5} sequential Assemble calls on one value + a deep copy, then the previous case's value once more (interleaving A…A B…B A); then, in a child process, g ∈ {2,4,8,16} goroutines released together, each compiling its own copy k times " +
 		"(two thirds of the copies share all slices with one original, one third are deep), a goroutine compiling the previous (different) policy, two calling arch.GetInfo on 16 names " +
 		"and one running Action/FilterFlag/Operation conversions; then 3 fresh processes. All outputs byte-identical and equal to the model, exported fields unchanged. " +
 		"A policy whose architecture is the host's is compiled without the arch hook (cache store in Policy.Assemble exercised). distinct by (k, g, policy)"
